@@ -162,9 +162,30 @@ def check_case(spec):
         l_ = dspec_["layer"]
         si = orc.si_scales(l_["xi"], l_["lam"], l_["d"], dspec_["lu"])
         got = dict(Bc2=dev_.Bc2.to("T").magnitude, A0=dev_.A0.to("T * m").magnitude, K0=dev_.K0.to("A / m").magnitude)
+        # time and voltage scales for a conductivity stated once in SI (2.5e6 S/m) and handed over in the device's length units,
+        # as a layer attribute or as the documented argument
+        import tdgl
+        sigma_si = 2.5e6
+        L_ = orc.LENGTH[dspec_["lu"]]
+        lam_m, d_m = l_["lam"] * L_, l_["d"] * L_
+        si["tau0"] = orc.MU0 * sigma_si * lam_m ** 2
+        si["V0"] = si["xi_m"] * si["K0"] / d_m / sigma_si
+        si["kappa"] = l_["lam"] / l_["xi"]
+        si["Lambda_m"] = lam_m ** 2 / d_m
+        sig = sigma_si * L_ * tdgl.ureg(f"siemens / {dspec_['lu']}")
+        got["tau0"] = dev_.tau0(conductivity=sig).to("s").magnitude
+        got["V0"] = dev_.V0(conductivity=sig).to("V").magnitude
+        got["kappa"] = float(dev_.kappa)
+        got["Lambda_m"] = dev_.Lambda.to("m").magnitude
+        dev_c = dev_.copy()
+        dev_c.layer.conductivity = sigma_si * L_
         for k in got:
             if abs(got[k] - si[k]) > 1e-9 * abs(si[k]):
                 res.fail("C08.physical_scales", f"Device.{k} = {got[k]:.9g} SI in units {dspec_['lu']}, definition from Phi_0, mu_0 gives {si[k]:.9g}")
+        for k, unit in (("tau0", "s"), ("V0", "V")):
+            v = getattr(dev_c, k)().to(unit).magnitude
+            if abs(v - si[k]) > 1e-9 * abs(si[k]):
+                res.fail("C08.physical_scales", f"Device.{k}() with layer conductivity = {v:.9g} SI in units {dspec_['lu']}, definition gives {si[k]:.9g}")
     if res.violations:
         return res
     # evaluation points above the film, given in each system's own length units
